@@ -17,7 +17,7 @@ EXTENDS Squitterator, Country, Render, Json, IOUtils, TLC, FiniteSets
 
 Rec == ndJsonDeserialize(IOEnv.TRACE)
 Prop == IOEnv.PROP
-Sel(p) == Prop = p \/ Prop = "ALL"
+Sel(p) == Prop = p \/ (Prop = "ALL" /\ p # "DRIFT")
 
 VARIABLES l, st
 
@@ -164,6 +164,15 @@ FrameChecks(ev, f, a, pre, post, ctx, x, obs, tlo, thi) ==
                                         /\ AdmCaps(pre, post.caps, f, ctx) /\ AdmHdg(pre, post.hdg, f, ctx, adv))
                           \/ Free(f), ev, "commb.crosstalk")
   /\ Mark("C11", ~Free(f) /\ ctx.exists, ev)
+  \* DRIFT: implementation-shaped detail (reported as notes only)
+  /\ Chk("DRIFT", "last_df", AddrOnly(f, ctx) \/ DrfLdf(pre, post.ldf, f, ctx), ev, path)
+  /\ Chk("DRIFT", "last_tc", AddrOnly(f, ctx) \/ DrfLtc(pre, post.ltc, f, ctx), ev, path)
+  /\ Chk("DRIFT", "alt_gnss", AddrOnly(f, ctx) \/ DrfAltg(pre, post.altg, f, ctx), ev, path)
+  /\ Chk("DRIFT", "heading19", DrfHdg19(pre, post.hdg, f, ctx), ev, path)
+  /\ Chk("DRIFT", "ground_movement", AddrOnly(f, ctx) \/ DrfGm(pre, post.gm, f, ctx), ev, path)
+  /\ Chk("DRIFT", "surface_track", DrfTrkSurface(pre, post.trk, f, ctx), ev, path)
+  /\ Chk("DRIFT", "position_stamp", DrfPts(pre, post, f, ctx), ev, path)
+  /\ Chk("DRIFT", "df18_default", DrfDf18Default(pre, post, f, ctx), ev, path)
   \* C12: the age restarts with every accepted frame
   /\ Chk("C12", "stamp", post.ts + st.off >= tlo /\ post.ts + st.off <= thi, ev, "ts." \o path)
   /\ Mark("C12", ctx.exists, ev)
@@ -288,6 +297,13 @@ PairChecks(ev, t1) ==
                (AcceptedFrames(e0.lines) = AcceptedFrames(ev.lines) => TablesEqual(t0, t1, NoStamps)), ev, "junk")
        /\ Chk("C13", "completed", kind = "c13" => e0.ok /\ ev.ok, ev, "junk.abort")
        /\ Mark("C13", kind = "c13" /\ Len(e0.lines) # Len(ev.lines) /\ AcceptedFrames(e0.lines) = AcceptedFrames(ev.lines), ev)
+       \* segmentation invariance: the same lines fed one per reader run (slot 0, accumulated in st.tbl[0]) and as a
+       \* single run (slot 1) give the same table - state hidden inside the reader thread would break this
+       /\ Chk("C11", "segmentation", kind = "seg" => TablesEqual(st.tbl[0], t1, NoStamps), ev, "seg")
+       \* C04: a corrupted copy right after the original, inside one reader run, leaves no trace: [F, F^e, G] = [F, G]
+       /\ Chk("C04", "corrupted.copy", kind = "c04s" => TablesEqual(t0, t1, NoStamps), ev, "copy")
+       /\ Mark("C04", kind = "c04s", ev)
+       /\ Mark("C11", kind = "seg", ev)
        /\ Chk("C19", "presentation", kind = "c19" => TablesEqual(t0, t1, NoStamps), ev, ev.tag.opt)
        /\ Chk("C19", "observer", kind = "c19o" => TablesEqual(t0, t1, NoDist), ev, "O")
        /\ Chk("C19", "update.method", kind = "c19u" => TablesEqual(t0, t1, NineParams), ev, "U")
